@@ -11,8 +11,8 @@ ID = "C04"
 OWNS = ("C04",)
 TOL = 1e-6
 RULE = (
-    "kernel level: every 4-tuple of angular momenta 0..3 (256 tuples; the quick tier takes the 64 selected by "
-    "VERIF_SEED mod 4, the thorough tier all of them in three geometry classes), 1-3 primitives, 1-2 segments, centres "
+    "kernel level: every 4-tuple of angular momenta 0..3 (all 256 tuples in both tiers; the thorough tier six draws per tuple covering the "
+    "three geometry classes), 1-3 primitives, 1-2 segments, centres "
     "coincident / collinear / general, exponents log-uniform in 0.1..10 (0.2..5 when an f shell is present) with edge "
     "picks at the range ends; a fixed list of realistic ill-conditioned quartets (core s/p exponents 1e3..1e5 against "
     "diffuse d/f 0.1..0.3 in every pair arrangement, contracted cores); whole-basis calls of 2-4 shells (l<=2) in both "
@@ -54,12 +54,11 @@ def _mk(l, exps, rng, center):
 def gen_cases(tier, seed):
     cases = []
     tuples = list(itertools.product(range(4), repeat=4))
+    sel = tuples
     if tier == "quick":
-        sel = [t for i, t in enumerate(tuples) if i % 4 == seed % 4]
         geoms = [None]
     else:
-        sel = tuples
-        geoms = ["coincident", "collinear", "general"]
+        geoms = ["coincident", "collinear", "general", None, None, None]
     for ls in sel:
         for gi, geom in enumerate(geoms):
             rng = bases.rng_for("C04", seed, tier, ls, gi)
@@ -82,6 +81,24 @@ def gen_cases(tier, seed):
             for s in shells:
                 cost *= len(s["e"]) * (s["l"] + 1) * (s["l"] + 2) / 2 * len(s["k"][0])
             cases.append({"kind": "kernel", "shells": shells, "classes": [gcls, "ls:%d%d%d%d" % ls, "L:%d" % L], "cost": cost * (1 + L) ** 2 / 50})
+    # hostile family: every shell spans the whole admissible exponent range (both orientations amplify)
+    heavy = [t for t in tuples if sum(t) >= 8]
+    nh = 24 if tier == "quick" else 200
+    rngh = bases.rng_for("C04", seed, tier, "span")
+    for i in range(nh):
+        ls = heavy[int(rngh.integers(len(heavy)))]
+        rng = bases.rng_for("C04", seed, tier, "span", i)
+        lo, hi = (0.2, 5.0) if 3 in ls else (0.1, 10.0)
+        centers, gcls = bases.rand_centers(rng, 4, str(rng.choice(["coincident", "general", "near"])), scale=0.8)
+        shells = []
+        for l, c in zip(ls, centers):
+            s = bases.rand_shell(rng, l, K=int(rng.integers(2, 4)) if sum(ls) <= 10 else 2, M=1, t="c", center=c, emin=lo, emax=hi, ecls="span")
+            s.pop("_cls")
+            shells.append(s)
+        cost = 1.0
+        for s in shells:
+            cost *= len(s["e"]) * (s["l"] + 1) * (s["l"] + 2) / 2
+        cases.append({"kind": "kernel", "shells": shells, "classes": [gcls, "span-all", "ls:%d%d%d%d" % ls, "L:%d" % sum(ls)], "cost": cost * (1 + sum(ls)) ** 2 / 50})
     # ill-conditioned list, all pair arrangements
     rng = bases.rng_for("C04", "ill")
     cen = [[0.0, 0.0, 0.0], [0.0, 0.0, 0.0], [0.9, 0.3, -0.4], [0.9, 0.3, -0.4]]
@@ -92,7 +109,7 @@ def gen_cases(tier, seed):
                                 ("(td|td)", [t[0], d[0], t[1], d[1]]), ("(td|dt)", [t[0], d[0], d[1], t[1]])):
             cases.append({"kind": "kernel", "shells": [dict(s) for s in order], "classes": ["ill:" + name, "arr:" + arr_name], "cost": 400})
     # whole-basis calls
-    nw = 8 if tier == "quick" else 48
+    nw = 16 if tier == "quick" else 96
     for i in range(nw):
         rng = bases.rng_for("C04", seed, tier, "whole", i)
         nsh = 2 + i % 3
@@ -113,6 +130,40 @@ def schwarz(ra, rb):
     n1, n2 = blk.shape[0], blk.shape[1]
     d = np.abs(blk.reshape(n1 * n2, n1 * n2).diagonal()).reshape(n1, n2)
     return np.sqrt(d)
+
+
+FAR = 1e-9  # an element is "far-field" when its Schwarz scale is below FAR x the largest Schwarz scale of the array
+
+
+def judge_eri(out, ref, scale, what, qty, viols, errs, info):
+    """Elementwise |out-ref| <= 1e-6*schwarz. Elements whose Schwarz scale is below FAR of the array's largest are
+    reported separately (qty + '_farfield') with the absolute error, so that the classifier can key them."""
+    if isinstance(out, cm.Raised):
+        viols.append(cm.unexpected(out, what, **info))
+        return
+    sv = cm.shape_violation(out, ref.shape, what)
+    if sv:
+        viols.append(sv)
+        return
+    err = np.abs(np.asarray(out) - ref)
+    err = np.where(np.isnan(err), np.inf, err)
+    smax = float(scale.max())
+    rmax = float(np.abs(ref).max())
+    near = scale >= FAR * smax
+    rel = err / scale
+    for mask, q in ((near, qty), (~near, qty + "_farfield")):
+        if not mask.any():
+            continue
+        r = np.where(mask, rel, 0.0)
+        at = np.unravel_index(int(np.argmax(r)), r.shape)
+        e = float(r[at])
+        errs[q] = max(errs.get(q, 0.0), min(e, 1e300))
+        if q.endswith("_farfield"):
+            errs[q + "_abs_over_max"] = max(errs.get(q + "_abs_over_max", 0.0), float(np.where(mask, err, 0.0).max()) / (rmax + 1e-300))
+        if not e <= TOL:
+            viols.append(cm.viol("%s deviates from the reference by %.3e of the Schwarz scale (bound 1e-6) at %s: got %.6e, reference %.6e, Schwarz scale %.3e (largest in the array %.3e)" % (
+                what, min(e, 1e300), tuple(int(x) for x in at), float(np.asarray(out)[at]), float(ref[at]), float(scale[at]), smax),
+                q, min(e, 1e300), TOL, abs_err=float(err[at]), ref_max=rmax, schwarz=float(scale[at]), schwarz_max=smax, at=[int(x) for x in at], **info))
 
 
 def run_case(case):
@@ -148,11 +199,8 @@ def run_case(case):
                     shp[2 * ax], shp[2 * ax + 1] = s.M, s.ncart
                     blk = blk * s.cont_norm.reshape(shp)
                 blk = blk.reshape(ref.shape)
-                e, at = cm.maxerr(blk, ref, scale)
-                errs["eri_kernel"] = e
-                if not e <= TOL:
-                    viols.append(cm.viol("ERI block (%s) deviates from the reference by %.3e of the Schwarz scale (bound 1e-6) at %s; amplification exponent of the evaluated orientation %.1f, of the swapped one %.1f" % (
-                        "".join("spdf"[l] for l in info["ls"]), e, at, info["A_given"], info["A_swapped"]), "eri_kernel", e, TOL, **info))
+                judge_eri(blk, ref, scale, "ERI block (%s; amplification exponent of the evaluated orientation %.1f, of the swapped one %.1f)" % (
+                    "".join("spdf"[l] for l in info["ls"]), info["A_given"], info["A_swapped"]), "eri_kernel", viols, errs, info)
         nontrivial = sum(info["ls"]) >= 1 and float((np.abs(ref) / scale).max()) > 1e-8
         if "ill:" in "".join(case["classes"]):
             nontrivial = True
@@ -162,11 +210,11 @@ def run_case(case):
         dg = np.sqrt(np.abs(ref.reshape(n * n, n * n).diagonal()).reshape(n, n))
         scale = dg[:, :, None, None] * dg[None, None, :, :] + 1e-300
         chem = cm.call(electron_repulsion_integral, cm.build(shells), notation="chemist")
-        cm.compare(chem, ref, TOL, "electron_repulsion_integral(notation='chemist')", "eri_chemist", viols, errs, scale=scale, **info)
+        judge_eri(chem, ref, scale, "electron_repulsion_integral(notation='chemist')", "eri_chemist", viols, errs, info)
         phys = cm.call(electron_repulsion_integral, cm.build(shells), notation="physicist")
         dflt = cm.call(electron_repulsion_integral, cm.build(shells))
         evals += 3
-        cm.compare(phys, ref.transpose(0, 2, 1, 3), TOL, "electron_repulsion_integral(notation='physicist')", "eri_physicist", viols, errs, scale=scale.transpose(0, 2, 1, 3), **info)
+        judge_eri(phys, ref.transpose(0, 2, 1, 3), scale.transpose(0, 2, 1, 3), "electron_repulsion_integral(notation='physicist')", "eri_physicist", viols, errs, info)
         if isinstance(chem, np.ndarray) and isinstance(phys, np.ndarray):
             evals += 1
             if phys.shape != chem.transpose(0, 2, 1, 3).shape or not np.array_equal(phys, chem.transpose(0, 2, 1, 3)):
@@ -182,10 +230,21 @@ A0 = 8.0
 
 
 def classify(case, v):
-    """C04/etransfer-amplification: the electron-transfer recursion amplifies rounding by (p/q) per unit of ket
-    angular momentum; accepted only when BOTH orientations have amplification exponent >= A0 and the error is
-    small (< 1e-4 of the Schwarz scale)."""
-    if v.get("qty") == "eri_kernel" and v.get("A_given") is not None:
+    """Mechanism keys.
+
+    C04/etransfer-amplification: the electron-transfer recursion amplifies rounding by (p/q) per unit of ket angular
+    momentum; accepted only when BOTH orientations have amplification exponent >= A0 and the error is small
+    (< 1e-4 of the Schwarz scale).
+    C04/far-field-cancellation: elements whose Schwarz scale is below 1e-9 of the array's largest (functions tens of
+    bohr apart) lose relative accuracy in the horizontal recursion (multiplication by the centre distance); accepted only
+    while the ABSOLUTE error stays below 1e-15 of the largest element of the array.
+    """
+    q = v.get("qty", "")
+    if q.endswith("_farfield"):
+        if v.get("abs_err") is not None and v["abs_err"] <= 1e-15 * v.get("ref_max", 0.0) and v.get("schwarz", 1.0) < FAR * v.get("schwarz_max", 0.0):
+            return "C04/far-field-cancellation"
+        return None
+    if q == "eri_kernel" and v.get("A_given") is not None:
         if min(v["A_given"], v["A_swapped"]) >= A0 and v.get("err", 1.0) < 1e-4:
             return "C04/etransfer-amplification"
     return None
